@@ -67,7 +67,7 @@ CANON = {
 BAD = {
     "INT": ["abc", "12a"],
     "LENGTH": ["abc"],
-    "SEQNUM": ["abc", "-1"],
+    "SEQNUM": ["abc", "0", "-1"],      # "value must be positive" (EndSeqNo(16)=0 is the one exception)
     "NUMINGROUP": ["abc"],
     "DAYOFMONTH": ["32", "abc", "0"],
     "FLOAT": ["abc", "1.2.3"],
@@ -134,6 +134,10 @@ def synthetic_xml():
         (5027, "NoTypedNested", "NUMINGROUP", ()), (5028, "TypedRef2", "STRING", ()),
         (5029, "EnumMvs", "MULTIPLEVALUESTRING", ("a", "b", "c")), (5030, "EnumStr", "STRING", ("AA", "BB")),
         (5031, "Unused", "STRING", ()), (5032, "BetaNote", "STRING", ()), (5033, "NoDeltaItems", "NUMINGROUP", ()),
+        (627, "NoHops", "NUMINGROUP", ()), (628, "HopCompID", "STRING", ()), (629, "HopSendingTime", "UTCTIMESTAMP", ()),
+        (630, "HopRefID", "SEQNUM", ()),
+        (7, "BeginSeqNo", "SEQNUM", ()), (16, "EndSeqNo", "SEQNUM", ()), (36, "NewSeqNo", "SEQNUM", ()),
+        (45, "RefSeqNum", "SEQNUM", ()), (5034, "EpsCount", "INT", ()), (5035, "EpsDay", "DAYOFMONTH", ()),
     ]
     n = 5100
     for name, typ in _SYN_TYPED:
@@ -153,6 +157,10 @@ def synthetic_xml():
   <field name='TargetCompID' required='Y'/><field name='MsgSeqNum' required='Y'/>
   <field name='PossDupFlag' required='N'/><field name='SendingTime' required='Y'/>
   <field name='OrigSendingTime' required='N'/>
+  <group name='NoHops' required='N'>
+   <field name='HopCompID' required='N'/><field name='HopSendingTime' required='N'/>
+   <field name='HopRefID' required='N'/>
+  </group>
  </header>
  <messages>
   <message name='Alpha' msgtype='UA' msgcat='app'>
@@ -184,6 +192,14 @@ def synthetic_xml():
     <field name='TypedRef' required='Y'/>
     <field name='TMvs' required='Y'/>
    </group>
+  </message>
+  <message name='Eps' msgtype='UE' msgcat='app'>
+   <field name='BeginSeqNo' required='Y'/>
+   <field name='EndSeqNo' required='Y'/>
+   <field name='NewSeqNo' required='N'/>
+   <field name='RefSeqNum' required='N'/>
+   <field name='EpsCount' required='N'/>
+   <field name='EpsDay' required='N'/>
   </message>
   <message name='Gamma' msgtype='UC' msgcat='app'>
    <field name='GammaID' required='Y'/>
@@ -396,6 +412,14 @@ class DCtx:
         pool = ["9999", "29999", "39999", "49999", "59999"]
         pool = pool[SEED % len(pool):] + pool[:SEED % len(pool)]
         self.unknown = next(t for t in pool if t not in d.by_tag)
+        # members of header / trailer groups (e.g. HopCompID of NoHops): allowed only inside that group
+        env_top = set(m["tag"] for m in d.header) | set(m["tag"] for m in d.trailer)
+        self.env_group_members = sorted(
+            (t for t in (d.header_tags | d.trailer_tags) - env_top
+             if t not in d.group_tags and d.by_tag[t][1].upper() != "NUMINGROUP"), key=int)
+        # plain fields that occur only inside groups, in no message body at top level
+        top_anywhere = set(m["tag"] for _n, _t, mem in self.msgs for m in mem)
+        self.group_only = [t for t in self.plain if t not in top_anywhere]
         # first top-level and first nested position of every plain field (walk order of the dictionary)
         self.first_pos = set()
         seen = set()
@@ -498,6 +522,9 @@ def valid_instances(dc, mi, quick_subset, thorough=True):
         yield "with_header", h + mn + trailer_nodes(dc, False)
         ho = header_nodes(dc, mt, True)
         yield "with_header", ho + mx + trailer_nodes(dc, False)
+        hg = [m for m in dc.d.header if m["k"] == "g"]
+        if hg:
+            yield "with_header_group", ho + build(hg, False, "max", two=True) + mn + trailer_nodes(dc, False)
         if len(dc.d.trailer) > 1:
             yield "with_optional_trailer_fields", h + mn + trailer_nodes(dc, True)
     if quick_subset:
@@ -642,6 +669,17 @@ def faults(dc, mi, base, thorough, only_in_groups=False, swap_first_only=False):
                 if cands:
                     t = cands[0]
                     yield "member_of_other_container", lv, ins([t, canon_value(dc.field_member(t))]), t
+            if at != len(nodes):
+                continue
+            # a tag that the dictionary allows only inside some repeating group, none of this message
+            gonly = [t for t in dc.group_only if t not in all_tags]
+            if gonly and (thorough or level == 0):
+                t = gonly[(SEED + level) % len(gonly)]
+                yield "group_only_tag_not_in_message", lv, ins([t, canon_value(dc.field_member(t))]), t
+            # a member of a header / trailer group (HopCompID ...) as a plain tag
+            env = [t for t in dc.env_group_members if t not in all_tags]
+            for t in (env if thorough else env[SEED % len(env):][:1] if level == 0 and env else []):
+                yield "header_group_member_outside_its_group", lv, ins([t, canon_value(dc.field_member(t))]), t
 
 
 def header_faults(dc, mi, thorough):
@@ -661,6 +699,9 @@ def header_faults(dc, mi, thorough):
         yield "missing_required_header_field", "top", hreq[:ni] + hreq[ni + 1:] + body + tr, m["name"]
         for cls, v in bad_values(m, thorough):
             yield cls, "top", hreq[:ni] + [[tag, v]] + hreq[ni + 1:] + body + tr, m["name"]
+    for t in dc.env_group_members:
+        yield "header_group_member_outside_its_group", "top", \
+            hreq + [[t, canon_value(dc.field_member(t))]] + body + tr, t
     # optional header fields, enumerated ones first (simplest counterexample first)
     for tag, val in sorted(hall, key=lambda n: (not hm[n[0]]["en"],)):
         m = hm[tag]
@@ -937,6 +978,218 @@ def real_permutations(dc, quick):
     return out
 
 
+# ---- validation history --------------------------------------------------------------
+HISTORY_CLAUSE = ("the verdict is a function of the message and the dictionary (a message built according to the "
+                  "dictionary validates, any single violation is rejected) - it does not depend on what the same "
+                  "FIXSchema instance validated before")
+HIST = {}        # did -> list of (kind, class, mt, tree, focus values)
+HIST_ORDERS = ("forward", "reversed", "valid_first", "faults_first")
+
+
+def leaves(tree, out=None):
+    out = set() if out is None else out
+    for t, v in tree:
+        if isinstance(v, list):
+            for it in v:
+                leaves(it, out)
+        else:
+            out.add((t, v))
+    return out
+
+
+def history_corpus(dc):
+    """Small cases that put the same literal value into different fields / datatypes: per message the
+    minimal instance and every fault of it (all fault values), the header faults, and at the first position of
+    every field each canonical / special / enumerated value.  focus = the values the case adds to its base."""
+    out = []
+    for mi, (name, mt, members) in enumerate(dc.msgs):
+        mn = build(members, False, "min")
+        base_leaves = leaves(mn)
+        out.append(("valid", "minimal", mt, mn, frozenset(v for _t, v in base_leaves)))
+        for cls, lv, tree, note in faults(dc, mi, mn, True):
+            out.append(("fault", cls, mt, tree, frozenset(v for _t, v in leaves(tree) - base_leaves)))
+        hb = header_nodes(dc, mt, False)
+        if hb is not None:
+            hl = leaves(hb + mn + trailer_nodes(dc, False))
+            for cls, lv, tree, note in header_faults(dc, mi, True):
+                out.append(("fault", cls, mt, tree, frozenset(v for _t, v in leaves(tree) - hl)))
+    for mi, p in sorted(dc.first_pos):
+        name, mt, members = dc.msgs[mi]
+        m = None
+        for pp, mm, _l, _i in positions(members):
+            if pp == p:
+                m = mm
+        base = build(members, False, "min", target=p)
+        vals = []
+        if m["en"]:
+            vals = [("enumerator", e) for e in m["en"][:3]]
+        else:
+            vals = [("typed_value:" + m["typ"].upper(), v) for v in CANON.get(m["typ"].upper(), [])]
+        if m["tag"] in SPECIAL_VALID and not m["en"]:
+            vals.insert(0, ("special_value_tag" + m["tag"], SPECIAL_VALID[m["tag"]]))
+        for cls, v in vals:
+            out.append(("valid", cls, mt, set_value(base, p, v), frozenset([v])))
+    return out
+
+
+def hist_sequence(corpus, order):
+    idx = list(range(len(corpus)))
+    if order == "reversed":
+        idx.reverse()
+    elif order == "valid_first":
+        idx = [i for i in idx if corpus[i][0] == "valid"] + [i for i in idx if corpus[i][0] != "valid"]
+    elif order == "faults_first":
+        idx = [i for i in idx if corpus[i][0] != "valid"] + [i for i in idx if corpus[i][0] == "valid"]
+    return idx
+
+
+def fresh_schema(dc):
+    from asyncfix.protocol.schema import FIXSchema
+
+    return FIXSchema(ET.ElementTree(copy.deepcopy(dc.root)))
+
+
+def _hist_work(item):
+    """('seq', did, order): one fresh FIXSchema validates the whole corpus in that order -> verdict per index.
+    ('pair', did, ia, ib): fresh instance validates A then B, another fresh instance B then A."""
+    dc = get_dc(item[1], REPO)
+    corpus = HIST[item[1]]
+    if item[0] == "seq":
+        schema = fresh_schema(dc)
+        out = [None] * len(corpus)
+        for i in hist_sequence(corpus, item[2]):
+            out[i] = verdict(schema, corpus[i][2], corpus[i][3])
+        return out
+    ia, ib = item[2], item[3]
+    a, b = corpus[ia], corpus[ib]
+    s1 = fresh_schema(dc)
+    a_fresh = verdict(s1, a[2], a[3])
+    b_after_a = verdict(s1, b[2], b[3])
+    s2 = fresh_schema(dc)
+    b_fresh = verdict(s2, b[2], b[3])
+    a_after_b = verdict(s2, a[2], a[3])
+    return (a_fresh, b_after_a, b_fresh, a_after_b)
+
+
+def hist_signature(case):
+    kind, cls = case[0], case[1]
+    return "history_dependence|" + ("valid:" if kind == "valid" else "") + cls
+
+
+def hist_violation(did, case, fresh, observed, first, how):
+    return {
+        "signature": hist_signature(case),
+        "clause": HISTORY_CLAUSE,
+        "detail": {"dictionary": did, "msgtype": case[2], "case": case[1], "tree": _short(case[3]),
+                   "verdict_on_fresh_instance": fresh, "verdict_after_history": observed, "history": how,
+                   "validated_before": None if first is None else {"msgtype": first[2], "case": first[1],
+                                                                    "tree": _short(first[3])}},
+        "replay": {"kind": "history", "dict": did, "seed": SEED, "signature": hist_signature(case),
+                   "first": None if first is None else {"msgtype": first[2], "tree": first[3]},
+                   "then": {"msgtype": case[2], "tree": case[3]}, "how": how},
+    }
+
+
+def history_pairs(corpus, cap):
+    """(valid A, fault B) pairs whose added values intersect; pairs involving a field-specific special value first."""
+    by_val = {}
+    for i, c in enumerate(corpus):
+        if c[0] == "fault":
+            for v in c[4]:
+                by_val.setdefault(v, []).append(i)
+    for v in by_val:
+        by_val[v].sort(key=lambda i: (tree_size(corpus[i][3]), i))  # smallest counterpart first
+    pairs, seen = [], set()
+    valid = [i for i, c in enumerate(corpus) if c[0] == "valid" and c[1] != "minimal"]
+    valid.sort(key=lambda i: (not corpus[i][1].startswith("special_value"), i))
+    per_value = {}
+    for ia in valid:
+        for v in sorted(corpus[ia][4]):
+            for ib in by_val.get(v, []):
+                k = (corpus[ia][1], corpus[ib][1], v)
+                # a few representatives per (valid class, fault class, value)
+                if per_value.get(k, 0) >= (6 if corpus[ia][1].startswith("special_value") else 1):
+                    continue
+                if (ia, ib) in seen:
+                    continue
+                per_value[k] = per_value.get(k, 0) + 1
+                seen.add((ia, ib))
+                pairs.append((ia, ib))
+    return pairs[:cap]
+
+
+def find_polluter(dc, corpus, order, i, fresh):
+    """A single earlier case of that run after which case i gets another verdict than on a fresh instance."""
+    seq = hist_sequence(corpus, order)
+    before = seq[:seq.index(i)]
+    cands = [j for j in reversed(before) if corpus[j][4] & corpus[i][4]]
+    for j in cands[:24]:
+        s = fresh_schema(dc)
+        verdict(s, corpus[j][2], corpus[j][3])
+        if verdict(s, corpus[i][2], corpus[i][3]) != fresh:
+            return j
+    return None
+
+
+def run_history(ctx):
+    items = []
+    npairs = {}
+    for did in DICT_IDS:
+        dc = DC[did]
+        if dc.schema is None:
+            continue
+        HIST[did] = history_corpus(dc)
+        for o in HIST_ORDERS:
+            items.append(("seq", did, o))
+        pairs = history_pairs(HIST[did], 400 if did in ("SIMPLE", "SYN") else (12 if ctx.quick else 60))
+        npairs[did] = len(pairs)
+        items += [("pair", did, ia, ib) for ia, ib in pairs]
+    gc.collect()
+    gc.freeze()
+    items.sort(key=lambda x: (x[0] != "seq", DICT_IDS.index(x[1]) if x[0] != "seq" else -len(HIST[x[1]])))
+    res = ctx.pmap(_hist_work, items, chunk=1)
+    seqs = {}
+    for it, r in zip(items, res):
+        did = it[1]
+        corpus = HIST[did]
+        if it[0] == "seq":
+            seqs.setdefault(did, {})[it[2]] = r
+            ctx.count(states=1, transitions=len(r) + 1, traces=len(r), evaluations=len(r), schema_parses=1,
+                      history_sequences=1)
+            ctx.outcomes.update(r)
+            continue
+        a, b = corpus[it[2]], corpus[it[3]]
+        a_fresh, b_after_a, b_fresh, a_after_b = r
+        ctx.count(states=2, transitions=6, traces=4, evaluations=4, schema_parses=2, history_pairs=1)
+        if b_after_a != b_fresh:
+            ctx.merge_violations([hist_violation(did, b, b_fresh, b_after_a, a, "pair")])
+        if a_after_b != a_fresh:
+            ctx.merge_violations([hist_violation(did, a, a_fresh, a_after_b, b, "pair")])
+    for did in DICT_IDS:
+        if did not in seqs:
+            continue
+        dc, corpus, runs = DC[did], HIST[did], seqs[did]
+        for i, case in enumerate(corpus):
+            vs = [runs[o][i] for o in HIST_ORDERS]
+            if len(set(vs)) == 1:
+                continue
+            sig = hist_signature(case)
+            if sig in ctx.violations:
+                ctx.violations[sig]["count"] += 1
+                continue
+            fresh = verdict(fresh_schema(dc), case[2], case[3])
+            ctx.count(transitions=2, schema_parses=1)
+            o = next(o for o in HIST_ORDERS if runs[o][i] != fresh)
+            j = find_polluter(dc, corpus, o, i, fresh)
+            v = hist_violation(did, case, fresh, runs[o][i], None if j is None else corpus[j],
+                               "one earlier validation" if j is not None else "sequence:%s:%d" % (o, i))
+            if j is None:
+                v["replay"]["sequence"] = {"order": o, "index": i}
+            ctx.merge_violations([v])
+    return {did: {"history_corpus": len(HIST[did]), "history_orders": len(HIST_ORDERS), "history_pairs": npairs[did]}
+            for did in HIST}
+
+
 # --------------------------------------------------------------------------------------
 def run(ctx):
     global SEED, REPO
@@ -1047,12 +1300,14 @@ def run(ctx):
             v["count"] = r["vsigs"][v["signature"]]
             ctx.merge_violations([v])
     ctx.outcomes.update("parse:" + p for p in parse_outcomes)
+    hist_bounds = run_history(ctx)
     ctx.bounds = {
         "dictionaries": {did: {"messages": len(DC[did].msgs),
                                "member_positions": sum(count_positions(m) for _n, _t, m in DC[did].msgs),
                                "components": len(DC[did].d.component_order),
                                "component_orders_tried": nperm[did],
                                "order_corpus": ncorpus.get(did, {})} for did in DICT_IDS},
+        "validation_history": hist_bounds,
         "cases_per_class": dict(sorted(classes.items())),
         "tier": ctx.tier,
     }
@@ -1096,6 +1351,29 @@ def replay(ctx, rep):
             return [{"signature": "dictionary_rejected|declared_order", "clause": VALID_CLAUSE,
                      "detail": {"dictionary": rep["dict"], "observed": dc.load_error}, "replay": rep}]
         return []
+    if rep["kind"] == "history":
+        SEED = rep.get("seed", SEED)
+        then = rep["then"]
+        fresh = verdict(fresh_schema(dc), then["msgtype"], then["tree"])
+        s2 = fresh_schema(dc)
+        if rep.get("first"):
+            verdict(s2, rep["first"]["msgtype"], rep["first"]["tree"])
+        elif rep.get("sequence"):
+            DC.clear()  # regenerate the corpus with the recorded seed
+            dc = get_dc(rep["dict"], REPO)
+            corpus = history_corpus(dc)
+            seq = hist_sequence(corpus, rep["sequence"]["order"])
+            s2 = fresh_schema(dc)
+            for i in seq[:seq.index(rep["sequence"]["index"])]:
+                verdict(s2, corpus[i][2], corpus[i][3])
+        after = verdict(s2, then["msgtype"], then["tree"])
+        if after == fresh:
+            return []
+        return [{"signature": rep.get("signature", "history_dependence"), "clause": HISTORY_CLAUSE,
+                 "detail": {"dictionary": rep["dict"], "verdict_on_fresh_instance": fresh,
+                            "verdict_after_history": after, "tree": _short(then["tree"]),
+                            "validated_before": _short(rep["first"]["tree"]) if rep.get("first") else rep.get("how")},
+                 "replay": rep}]
     if rep["kind"] == "case":
         mt, tree = rep["msgtype"], rep["tree"]
         v = verdict(dc.schema, mt, tree)
